@@ -160,6 +160,15 @@ def wiring(ctx, dev) -> None:
     t, cands = _vol_lists(ctx, dev, rule)
     fv, f = t.fv, t.f
     cb = f"{dev.name}.transfer"
+    if not cands:
+        # keyed containers lose repeated entries: {(s, d): partition_volume(..) ...} / dict(zip(..)) of the step lists
+        gbody = fv.cfg.loop_body[t.G]
+        for n in (fv.cfg.nodes[i] for i in sorted(gbody)):
+            if n.kind == "stmt" and isinstance(n.ast, ast.Assign) and any(isinstance(s_, ast.Call) and call_fname(s_) == "partition_volume" for s_ in ast.walk(n.ast.value)) and (
+                    isinstance(n.ast.value, (ast.DictComp, ast.SetComp)) or (isinstance(n.ast.value, ast.Call) and call_fname(n.ast.value) in ("dict", "set"))):
+                ctx.rep.refuted(rule, cb + "/vol-lists", f"`{stmt_key(n.ast)[:70]}` keeps the per-well step lists in a keyed container: when a (source, destination) pair or well is listed twice "
+                                "in one transfer, only the last requested volume is pipetted", where=f.where(n.ast))
+                return
     if len(cands) != 1:
         ctx.rep.check(None if not cands else False, rule, cb + "/vol-lists", "", f"expected one list of per-well volume lists built with partition_volume, found {len(cands)}", where=f.where())
         return
